@@ -48,6 +48,8 @@ pub struct GenCfg {
     pub thread_boost: bool,
     /// declare `VAR gd = -> kz` (a divert-target value the host can read)
     pub divert_global: bool,
+    /// words with quotes, apostrophes, non-ASCII, control characters (for output-format checks)
+    pub hostile_words: bool,
 }
 
 impl GenCfg {
@@ -87,6 +89,7 @@ impl GenCfg {
             pure_functions: false,
             thread_boost: false,
             divert_global: false,
+            hostile_words: false,
         }
     }
     /// everything, including the nondeterministic-looking features (for lockstep oracles)
@@ -144,6 +147,10 @@ const WORDS: &[&str] = &[
     "north", "opal", "pine", "quill", "reed", "slate", "tide", "umber", "vale", "wren", "yarrow", "zest",
 ];
 
+const HOSTILE_WORDS: &[&str] = &[
+    "\"quoted\"", "it's", "caf\u{e9}", "\u{65e5}\u{672c}", "\u{1f642}", "ctl\u{1}x", "del\u{7f}x", "ls\u{2028}x", "semi;colon", "a&b", "100%", "e\u{301}", "\u{10ffd}",
+];
+
 pub fn generate(cfg: &GenCfg, rng: &mut Rng) -> (Program, Meta) {
     let mut b = Builder {
         cfg,
@@ -165,6 +172,9 @@ pub fn generate(cfg: &GenCfg, rng: &mut Rng) -> (Program, Meta) {
 
 impl<'a> Builder<'a> {
     fn word(&mut self) -> String {
+        if self.cfg.hostile_words && self.rng.chance(1, 3) {
+            return self.rng.pick(HOSTILE_WORDS).to_string();
+        }
         self.rng.pick(WORDS).to_string()
     }
 
